@@ -1,24 +1,60 @@
 import OhkamiModel.M.ShutdownProofs
+import OhkamiModel.M.WaitGroup
 /-! # C18 — property theorems about the shutdown protocol model -/
 namespace C18
 open Ohkami.Shutdown2
 
 /-- **The interrupt is never lost.** In every state reachable under any interleaving of the handler's three steps
-(set flag, take waker, wake), the accept loop's steps (load flag, publish waker, re-check flag, return) and reactor wakes
-(connections arriving, spurious wakes), at first and later polls: if the handler has run to completion and nothing that
+(set flag, take waker, wake), the accept loop's steps (look at the flag, poll accept, load flag, publish waker, re-check flag, return),
+connections arriving and spurious wakes, at first and later polls: if the handler has run to completion and nothing that
 is guaranteed to happen can happen any more, the loop has returned `None` (it is not left waiting for a wake nobody
 will send). -/
-theorem no_lost_wakeup (s : St) (h : Reachable true s) : lost true s = false :=
+theorem no_lost_wakeup (s : St) (h : Reachable true true s) : lost true true s = false :=
   Ohkami.Shutdown2.no_lost_wakeup s h
 
 /-- the window existed in the code as it was (without the re-check): a reachable state lost the interrupt -/
-theorem lost_wakeup_in_old_code : (reach false 16 [init]).any (lost false) = true :=
+theorem lost_wakeup_in_old_code : (reach false true 24 [init]).any (lost false true) = true :=
   Ohkami.Shutdown2.lost_wakeup_in_old_code
+
+/-- **The server stops accepting, also under load.** In every reachable state in which the handler has run to completion, the accept loop
+returns `None` within three of its own steps, whatever connections arrive meanwhile (every pattern of arrivals before each step): no
+connection that is waiting, and no stream of connections, keeps it accepting. -/
+theorem stops_accepting_under_load (s : St) (h : Reachable true true s) (hd : s.hpc = .hDone) (p : List Bool) (hp : p.length = 3) :
+    (runLoad true true s p).ppc = .returnedNone :=
+  returns_under_load s h hd p (mem_patterns 3 p hp)
+
+/-- in the code as it was (the flag looked at only after `accept()` returned `Pending`) a connection ready at every poll kept the loop
+accepting for ever after the interrupt had been delivered completely (repaired by 1c39839) -/
+theorem kept_accepting_in_old_code :
+    let s := ((step true false init .handler).bind fun s => (step true false s .handler).bind fun s => step true false s .handler).getD init
+    s.hpc = .hDone ∧ (runLoad true false s (List.replicate 64 true)).ppc ≠ .returnedNone :=
+  keeps_accepting_in_old_code
 
 /-- **`howl` returns exactly when all in-flight sessions have finished.** For every valid history of sessions starting
 (`add`), finishing in any order (`done`) and polls of the wait group: each poll is Ready iff no session is alive at
 that moment. -/
 theorem howl_waits (ops : List WOp) (hv : wvalid 0 ops) (hb : ops.length < 2 ^ 64) : wrun 0 ops = livePolls 0 ops :=
   wrun_exact ops 0 hv (by omega)
+
+/-- **Awaiting the wait group never returns early**: in every state reachable from any number of sessions in flight, under any
+interleaving of sessions ending with the steps of `WaitGroup::poll` (load the counter; wake the own task; return `Pending`), the
+awaiting task has returned only if no session is in flight -/
+theorem wg_never_early (n : Nat) (s : Ohkami.WG.St) (h : Ohkami.WG.Reachable n s) (hr : s.pc = .ready) : s.count = 0 :=
+  (Ohkami.WG.inv_reachable n s h).2 hr
+
+/-- **and the awaiting task is never parked**: whenever it is between two polls, a wake is pending (the poll woke itself before returning
+`Pending`), so the end of a session can never be missed — also when the last session ends between the load and the wake -/
+theorem wg_never_asleep (n : Nat) (s : Ohkami.WG.St) (h : Ohkami.WG.Reachable n s) (hi : s.pc = .idle) : s.wake = true :=
+  (Ohkami.WG.inv_reachable n s h).1 hi
+
+/-- **so `howl` returns**: once the last session has ended, the awaiting task returns within three of its own steps, wherever it was -/
+theorem wg_progress (s : Ohkami.WG.St) (hc : s.count = 0) :
+    (Ohkami.WG.pollerStep (Ohkami.WG.pollerStep (Ohkami.WG.pollerStep s))).pc = .ready :=
+  Ohkami.WG.progress s hc
+
+/-- the premises are met by a state in which the last of three sessions ended between the load and the wake -/
+example : ∃ s, Ohkami.WG.Reachable 1 s ∧ s.pc = .loaded ∧ s.count = 0 := by
+  refine ⟨⟨0, .loaded, false⟩, ?_, rfl, rfl⟩
+  exact .step ⟨1, .loaded, false⟩ _ .done (.step (Ohkami.WG.init 1) _ .load .init (by decide)) (by decide)
 
 end C18
